@@ -176,8 +176,15 @@ def main():
                                    "model": {}, "solver": o["solver"], "solver_output": why, "was_locked": True,
                                    "undischarged": True, "function": o["function"], "file": fnr.get("file")})
             else:
-                undecided.append({"obligation": oid, "reason": why, "was_locked": oid in locked,
-                                  "function_source_changed": changed})
+                k = match_known(pid, {"kind": "obligation", "obligation": oid}, known)
+                if k is not None:
+                    # a recorded finding: this obligation cannot hold on the pinned tree, whatever the solver says
+                    line = f'KNOWN-FINDING: property={pid} {k["what"]}'
+                    if line not in known_lines:
+                        known_lines.append(line)
+                else:
+                    undecided.append({"obligation": oid, "reason": why, "was_locked": oid in locked,
+                                      "function_source_changed": changed})
     # vacuity guard against the lock file: every function proved on the pinned tree must still produce obligations
     # (obligation ids may legitimately shift when a function body is edited, so they are not compared one by one)
     locked_fns = set(locked_hash) or {oid.split("/")[0] for oid in locked}
@@ -200,7 +207,9 @@ def main():
         key = v.get("obligation") or v.get("check", "bounded")
         match = match_known(pid, v, known)
         if match:
-            known_lines.append(f'KNOWN-FINDING: property={pid} {match["what"]}')
+            line = f'KNOWN-FINDING: property={pid} {match["what"]}'
+            if line not in known_lines:
+                known_lines.append(line)
             continue
         n_viol += 1
         rp = os.path.join(ROOT, "replay", pid, (key.replace("/", "__").replace(" ", "_")[:150]) + ".json")
